@@ -644,3 +644,166 @@ Proof.
   eexists _, _. split; [vm_compute; reflexivity|]. repeat (split; [vm_compute; reflexivity|]).
   eexists _, _. split; vm_compute; reflexivity.
 Qed.
+
+(* ------------------------------------------------------------------ formatting formatted code changes nothing: texts *)
+From PV Require Spec.LuaLex Model.Lexer Model.LexToken Proofs.FmtRelexIdem.
+
+(* C10's idempotence clause for whole programs, from source bytes, for the models (lexer model, parser model, writer model):
+   for a byte string src of the reference dialect (Spec/LuaLex.v), lts its tokens (lexer model; C07: the reference tokens), seen by
+   the parser as ts = map lex_token lts, read to the end by the parser model, tree inside the writer's domain, no trailing table
+   separator, gaps_tidy: luafmt (any indent width w) writes a text out = ref_fmt (gap_fmt w) ts (C10_output_form); out is again a
+   byte string of the reference dialect; the lexer model reads it into lts'; the token list ts' = map lex_token lts' is
+   formatted_as (gap_fmt w) ts ts' - the same significant tokens (class, delimiter, data, code) and every run spelled as the
+   pipeline spells the run of ts at the same place - and gaps_tidy again; and WHENEVER the parser model reads ts' to the end with a
+   tree inside the domain and without trailing table separator (the parser on re-spaced tokens is not part of this theorem),
+   luafmt writes exactly out again.  No exclusion of one-line ifs (the depth passed inside them does not matter: gaps_tidy).
+   Proof: Proofs/FmtRelexIdem.v - ref_fmt is a rendering in the sense of Proofs/FmtRelexMain.v (rend_ref), so the re-lexing theorem
+   behind C09_same_code applies and returns the layout relation rr; rr_spelled turns it into formatted_as (norm_same_token: a
+   re-read code token is the token it was written from); then C10_idempotent_tokens. *)
+Theorem C10_idempotent : forall w src ss lts root e,
+  Forall byte src -> LuaLex.spec_lex src = Some ss -> Lexer.model_lex [src] = Ok lts ->
+  lua_parse (map LexToken.lex_token lts) = Ok (root, e) -> consumed (map LexToken.lex_token lts) e = true ->
+  writable (map LexToken.lex_token lts) root = true -> no_trailing_sep root = true -> gaps_tidy (map LexToken.lex_token lts) = true ->
+  exists out ss' lts',
+    writer_text (fmt_spaces w) (map LexToken.lex_token lts) (view root) = Ok out /\ Forall byte out /\
+    LuaLex.spec_lex out = Some ss' /\ Lexer.model_lex [out] = Ok lts' /\
+    formatted_as (gap_fmt w) (map LexToken.lex_token lts) (map LexToken.lex_token lts') /\
+    gaps_tidy (map LexToken.lex_token lts') = true /\
+    forall root' e',
+      lua_parse (map LexToken.lex_token lts') = Ok (root', e') -> consumed (map LexToken.lex_token lts') e' = true ->
+      writable (map LexToken.lex_token lts') root' = true -> no_trailing_sep root' = true ->
+      writer_text (fmt_spaces w) (map LexToken.lex_token lts') (view root') = Ok out.
+Proof. exact FmtRelexIdem.luafmt_idempotent. Qed.
+Print Assumptions C10_idempotent.
+
+(* non-vacuity: a badly indented function with a table constructor over two lines, a one-line if WITH else, two blank lines,
+   comments of all three kinds (the block comment over two lines, directly followed by code) and a tab: pass 1 changes the text;
+   the written text is lexed and parsed again, lies in the domain, and pass 2 reproduces it *)
+Definition C10_idem_src : list Z := unBS "-- header
+function f(a)
+    local t = {1,
+  2}	-- tab
+  if (a) x=-1 else x=2 // c2
+
+
+   f""s""
+  --[[ block
+     comment ]] return a..b
+end
+"%bs.
+
+Example C10_idempotent_text_nonvacuous :
+  exists ss lts root e out lts' root' e',
+    Forall byte C10_idem_src /\ LuaLex.spec_lex C10_idem_src = Some ss /\ Lexer.model_lex [C10_idem_src] = Ok lts /\
+    lua_parse (map LexToken.lex_token lts) = Ok (root, e) /\ consumed (map LexToken.lex_token lts) e = true /\
+    writable (map LexToken.lex_token lts) root = true /\ no_trailing_sep root = true /\ no_short_else root = false /\
+    gaps_tidy (map LexToken.lex_token lts) = true /\
+    writer_text (fmt_spaces 2) (map LexToken.lex_token lts) (view root) = Ok out /\ zlist_eqb out C10_idem_src = false /\
+    Lexer.model_lex [out] = Ok lts' /\
+    lua_parse (map LexToken.lex_token lts') = Ok (root', e') /\ consumed (map LexToken.lex_token lts') e' = true /\
+    writable (map LexToken.lex_token lts') root' = true /\ no_trailing_sep root' = true /\
+    writer_text (fmt_spaces 2) (map LexToken.lex_token lts') (view root') = Ok out.
+Proof.
+  eexists _, _, _, _, _, _, _, _. split.
+  { apply Forall_forall. intros x Hx. apply byteb_spec. revert x Hx. apply forallb_forall. vm_compute. reflexivity. }
+  repeat (split; [vm_compute; reflexivity|]). vm_compute. reflexivity.
+Qed.
+
+(* ------------------------------------------------------------------ the token-list checks, for lexer output; re-indentation from bytes *)
+From PV Require Instances.HoldsC01 Proofs.FmtRelexReindent.
+
+(* trivia_tidy is a fact about the lexer: the white-space / comment tokens of a source of the reference dialect never end a line *)
+Theorem C10_lexer_trivia_tidy : forall src ss lts,
+  Forall byte src -> LuaLex.spec_lex src = Some ss -> Lexer.model_lex [src] = Ok lts ->
+  trivia_tidy (map LexToken.lex_token lts) = true.
+Proof. exact FmtRelexReindent.lexer_trivia_tidy. Qed.
+Print Assumptions C10_lexer_trivia_tidy.
+
+(* C10_indent from source bytes (no trivia_tidy hypothesis; codes_tidy - no multi-line string - stays: it is not a fact about every source) *)
+Theorem C10_indent_text : forall w src ss lts root e,
+  Forall byte src -> LuaLex.spec_lex src = Some ss -> Lexer.model_lex [src] = Ok lts ->
+  lua_parse (map LexToken.lex_token lts) = Ok (root, e) -> consumed (map LexToken.lex_token lts) e = true ->
+  writable (map LexToken.lex_token lts) root = true -> codes_tidy (map LexToken.lex_token lts) = true -> no_trailing_sep root = true ->
+  exists cs, writer_text (fmt_spaces w) (map LexToken.lex_token lts) (view root) = Ok (chunks_text (fmt_spaces w) cs) /\
+    codes_of cs = sig_codes (map LexToken.lex_token lts) 0 /\
+    forall A i text B p q, cs = A ++ Code i text :: B ->
+      chunks_text (fmt_spaces w) A = p ++ NL :: q -> noNL q -> forallb is_sp q = true ->
+      sigb (map LexToken.lex_token lts) i = true /\ 0 <= token_depth (map LexToken.lex_token lts) i /\
+      q = repeat SP (Z.to_nat w * Z.to_nat (token_depth (map LexToken.lex_token lts) i)).
+Proof. exact FmtRelexReindent.indent_text. Qed.
+Print Assumptions C10_indent_text.
+
+(* gaps_tidy is NOT a fact about every source of the dialect: a block comment over two lines in the middle of a line *)
+Definition C10_gap_src : list Z := unBS "x=1 --[[a
+b]] y=2
+"%bs.
+Example C10_gaps_tidy_not_for_every_source :
+  exists ss lts, LuaLex.spec_lex C10_gap_src = Some ss /\ Lexer.model_lex [C10_gap_src] = Ok lts /\
+                 gaps_tidy (map LexToken.lex_token lts) = false /\ trivia_tidy (map LexToken.lex_token lts) = true.
+Proof. eexists _, _. split; [vm_compute; reflexivity|]. split; [vm_compute; reflexivity|]. split; vm_compute; reflexivity. Qed.
+
+(* re-indentation invariance from source bytes, the relation between the two sources stated on their REFERENCE tokens
+   (Proofs/FmtRelexReindent.v ref_reindent_equiv: the reference token lists of Spec/LuaLex.v, positions aside, have the same code
+   tokens, and the source text of the runs at corresponding places agrees after the tab / line-end normalisation and the removal
+   of the blanks at the edges of lines).  Then the lexer model's token lists are reindent_equiv (lexer_reindent_equiv: a parser
+   token is determined by its reference token) and C10_reindent_invariant applies.
+   MISSING for the byte-level clause with the monitor's relation: Spec.FmtShape.same_modulo_line_edges src1 src2 = Some true ->
+   ref_reindent_equiv (the reference reader of Spec/FmtShape.v against the reference lexer of Spec/LuaLex.v: same comments and
+   strings, same code stretches; and edge_norm against strip_line_edges o canon_ws).  Not proved; the Example below satisfies both. *)
+Theorem C10_reindent_bytes_partial : forall w src1 ss1 lts1 root1 e1 src2 ss2 lts2 root2 e2,
+  Forall byte src1 -> LuaLex.spec_lex src1 = Some ss1 -> Lexer.model_lex [src1] = Ok lts1 ->
+  lua_parse (map LexToken.lex_token lts1) = Ok (root1, e1) -> consumed (map LexToken.lex_token lts1) e1 = true ->
+  writable (map LexToken.lex_token lts1) root1 = true -> no_trailing_sep root1 = true -> gaps_tidy (map LexToken.lex_token lts1) = true ->
+  Forall byte src2 -> LuaLex.spec_lex src2 = Some ss2 -> Lexer.model_lex [src2] = Ok lts2 ->
+  lua_parse (map LexToken.lex_token lts2) = Ok (root2, e2) -> consumed (map LexToken.lex_token lts2) e2 = true ->
+  writable (map LexToken.lex_token lts2) root2 = true -> no_trailing_sep root2 = true -> gaps_tidy (map LexToken.lex_token lts2) = true ->
+  FmtRelexReindent.ref_reindent_equiv (map HoldsC01.unpos ss1) (map HoldsC01.unpos ss2) ->
+  writer_text (fmt_spaces w) (map LexToken.lex_token lts1) (view root1) = writer_text (fmt_spaces w) (map LexToken.lex_token lts2) (view root2).
+Proof. exact FmtRelexReindent.reindent_bytes_partial. Qed.
+Print Assumptions C10_reindent_bytes_partial.
+
+(* the lexer's token lists of two such sources are reindent_equiv *)
+Theorem C10_lexer_reindent_equiv : forall src1 ss1 lts1 src2 ss2 lts2,
+  Forall byte src1 -> LuaLex.spec_lex src1 = Some ss1 -> Lexer.model_lex [src1] = Ok lts1 ->
+  Forall byte src2 -> LuaLex.spec_lex src2 = Some ss2 -> Lexer.model_lex [src2] = Ok lts2 ->
+  FmtRelexReindent.ref_reindent_equiv (map HoldsC01.unpos ss1) (map HoldsC01.unpos ss2) ->
+  reindent_equiv (map LexToken.lex_token lts1) (map LexToken.lex_token lts2).
+Proof. exact FmtRelexReindent.lexer_reindent_equiv. Qed.
+Print Assumptions C10_lexer_reindent_equiv.
+
+(* non-vacuity: two layouts of a function with a one-line if with else, a comment, a blank line, tabs, trailing blanks (also after
+   the comment), different indentation: different bytes, same_modulo_line_edges, ref_reindent_equiv, both inside the domain, same output *)
+Definition C10_bytes1 : list Z := unBS "-- head
+function f(a)
+if (a) x=1 else x=2   -- c
+  
+		t={1,
+2}
+end
+"%bs.
+Definition C10_bytes2 : list Z := unBS "-- head  
+  function f(a)
+      if (a) x=1 else x=2   -- c   
+
+t={1,
+        2}  
+end
+"%bs.
+
+Example C10_reindent_bytes_nonvacuous :
+  exists ss1 lts1 root1 e1 ss2 lts2 root2 e2 out,
+    zlist_eqb C10_bytes1 C10_bytes2 = false /\ FmtShape.same_modulo_line_edges C10_bytes1 C10_bytes2 = Some true /\
+    LuaLex.spec_lex C10_bytes1 = Some ss1 /\ Lexer.model_lex [C10_bytes1] = Ok lts1 /\
+    lua_parse (map LexToken.lex_token lts1) = Ok (root1, e1) /\ consumed (map LexToken.lex_token lts1) e1 = true /\
+    writable (map LexToken.lex_token lts1) root1 = true /\ no_trailing_sep root1 = true /\ gaps_tidy (map LexToken.lex_token lts1) = true /\
+    LuaLex.spec_lex C10_bytes2 = Some ss2 /\ Lexer.model_lex [C10_bytes2] = Ok lts2 /\
+    lua_parse (map LexToken.lex_token lts2) = Ok (root2, e2) /\ consumed (map LexToken.lex_token lts2) e2 = true /\
+    writable (map LexToken.lex_token lts2) root2 = true /\ no_trailing_sep root2 = true /\ gaps_tidy (map LexToken.lex_token lts2) = true /\
+    FmtRelexReindent.ref_reindent_equiv (map HoldsC01.unpos ss1) (map HoldsC01.unpos ss2) /\
+    writer_text (fmt_spaces 2) (map LexToken.lex_token lts1) (view root1) = Ok out /\
+    writer_text (fmt_spaces 2) (map LexToken.lex_token lts2) (view root2) = Ok out.
+Proof.
+  eexists _, _, _, _, _, _, _, _, _.
+  do 16 (split; [vm_compute; reflexivity|]). split; [vm_compute; repeat split; reflexivity|].
+  split; vm_compute; reflexivity.
+Qed.
